@@ -123,7 +123,8 @@ ADDED = {
     "C14": " Backend delays include open()/close(); part 'backpressure' sends ABOR while the server's data writes are blocked by a client that does not read.",
     "C15": " Login choreographies (pending USER while another session of the user leaves, re-USER, early bird, wrong password first) and part 'relogin' (data connection opened as user A, re-login as user B, transfer on the existing connection: B's limit applies, A's never delays it).",
     "C17": " Payload sizes are session-specific and 14 backend operations can be delayed, so facts or offsets leaking between sessions show in the bytes.",
-    "C19": " The hostile-client part also counts server-wide and per-user connection slots as session resources. The 'line not dropped' rule uses an independent reading of the line (plain column split under both column conventions; './.' counts as a dot entry) and reports only if every reading names a non-dot entry.",
+    "C19": " The hostile-client part also counts server-wide and per-user connection slots as session resources. The 'line not dropped' rule is decided constructively: generated bytes are also decoded into a well-formed unix/windows/MLSx line whose name is known by construction; it must never be parsed as '.'/'..' unless the name lexically is one.",
+    "C03": " Part 'pipelined': three users with disjoint bases, a backend that really suspends, 2-5 lines sent in one segment (path commands, USER, PASS): the backend is never asked about a path inside the base of a user the session did not supply credentials for, none of that user's content is served, that user's subtree is unchanged.",
     "C20": " Scenarios also: over-limit user / server (530/421 replies), error paths, clients with latin-1 / ASCII encoding and passwords they cannot encode (the third twin is skipped there, counted).",
 }
 
